@@ -84,14 +84,15 @@ type pathCtx struct {
 	depth       int
 	maxDepth    int
 	realLibs    map[string]bool // stand-ins switched off by the harness (symxRealLibrary)
-	permute     bool // symbolic map iteration order
-	permuteTwo  bool // ... restricted to insertion order / reverse insertion order per map
+	permute     bool            // symbolic map iteration order
+	permuteTwo  bool            // ... restricted to insertion order / reverse insertion order per map
 	panicMode   string
 	harness     string
 	concrete    map[string]uint64 // replay mode: model driving a concrete run (no solver)
 	fresh       int
 	inInit      int
 	extraModel  map[string]uint64
+	syncMaps    map[*value]*symMap // sync.Map contents, by address
 	pendingRecs []pendingRec
 	model       map[string]uint64 // a model of the current pc (nil if unknown)
 	known       map[string]uint64 // variables fixed to a constant by the pc
